@@ -197,10 +197,18 @@ def prepare(force=False, verbose=False):
         fcntl.flock(lock, fcntl.LOCK_UN)
 
 
-def run_lines(cmd, lines, timeout=3600):
+def run_lines(cmd, lines, timeout=1500):
     """feed lines to a line-protocol process; returns {id: rest-of-output-line}"""
     inp = "\n".join(lines) + "\n"
-    p = subprocess.run(cmd, input=inp, stdout=subprocess.PIPE, stderr=subprocess.PIPE, text=True, timeout=timeout)
+    try:
+        p = subprocess.run(cmd, input=inp, stdout=subprocess.PIPE, stderr=subprocess.PIPE, text=True, timeout=timeout)
+    except subprocess.TimeoutExpired as e:
+        class P:
+            pass
+        p = P()
+        p.stdout = (e.stdout or b"").decode("utf-8", "replace") if isinstance(e.stdout, (bytes, type(None))) else e.stdout
+        p.stderr = "timeout after %ds" % timeout
+        p.returncode = 124
     out = {}
     for l in p.stdout.splitlines():
         i = l.find(" ")
